@@ -1201,8 +1201,59 @@ def conv_loop_inv(lc):
             return z3.BoolVal(False)
         d_bal = d_bal + (bal_of(now) - bal_of(ent))
         d_D = d_D + (D_of(now) - D_of(ent))
-    return z3.And(p_inv(p_now),
+    base = z3.And(p_inv(p_now),
                   z3.Implies(cond, z3.And(open_(p_now) - open_(p_ent) == d_bal, d_D >= 0, p_not_rbrace(p_now))))
+    try:
+        cc = content_conj(lc)
+    except Exception:  # noqa  (shape not recognised: no content claim; the content ensures then stays unproved)
+        cc = None
+    return base if cc is None else z3.And(base, cc)
+
+
+def content_conj(lc):
+    """round 7 (ORDER / ONCE, deductive): a loop of the converter that iterates over an Element itself (the default branch of the
+    worker, the top-level loop of omml_to_latex).  History ghost of THIS loop execution
+        CH(e, 0) = ""      CH(e, i+1) = CH(e, i) ++ r_i      r_i = result of the ONE worker call of iteration i, made on child i
+    (defining equations, added to the path as the iteration supplies r_i), invariant
+        content(accumulator) == content(accumulator at loop entry) ++ CH(e, i)
+    i.e. every iteration calls the worker exactly once, on the i-th child, and the accumulator gains exactly that result (an
+    iteration may drop it only when it is the empty string).  An iteration with no / several worker calls, or a call on
+    something else than child i -> False (candidate; the native replayer decides).  None: not such a loop."""
+    it = lc.seq
+    if not (isinstance(it, VExt) and it.sort == "Element"):
+        return None
+    pairs = acc_pairs(lc)
+    if len(pairs) != 1 or pairs[0][0] is None or pairs[0][1] is None:
+        return None
+    e = it.t
+    CH = lc.extra.get("chcat")
+    if CH is None:
+        CH = lc.extra["chcat"] = z3.Function(fresh_name("children_results"), El, I, S)
+    known = lc.st.ghost.get("content_loops", ())
+    if not any(x[1].eq(CH) for x in known):
+        lc.st.ghost["content_loops"] = known + ((e, CH),)
+    now, ent = cat_of(pairs[0][0]), cat_of(pairs[0][1])
+    lc.st.assume(CH(e, z3.IntVal(0)) == sval(""))
+    if z3.is_add(lc.i):                                   # end of iteration i (lc.i is i + 1)
+        i0 = z3.simplify(lc.i - 1)
+        n_ent = len([x for x in lc.entry.ghost.get("rcalls", ()) if x[0] == PE])
+        new = [x for x in lc.st.ghost.get("rcalls", ()) if x[0] == PE][n_ent:]
+        if len(new) != 1:
+            return z3.BoolVal(False)
+        (_t, am, rv) = new[0]
+        a = next(iter(am.values()))
+        if not (isinstance(a, VExt) and a.t.eq(CHILD(e, i0)) and isinstance(rv, VStr)):
+            return z3.BoolVal(False)
+        lc.st.assume(CH(e, lc.i) == z3.Concat(CH(e, i0), rv.t))
+    return now == cat2(ent, CH(e, lc.i))
+
+
+def content_of_children(c, e):
+    """CH(e, len(e)) of the one content loop over `e` on this path (a fresh unconstrained string if there is none)"""
+    loops = [x for x in c.st.ghost.get("content_loops", ()) if x[0].eq(e)]
+    if len(loops) != 1:
+        return z3.String(fresh_name("no-unique-loop-over-the-children"))
+    return loops[0][1](e, NCH(e))
 
 
 def acc_pairs(lc):
@@ -1497,6 +1548,23 @@ def contracts(reg):
         v = A0(c)
         return SIZE(v.t) if isinstance(v, VExt) else z3.IntVal(0)
 
+    def pe_default(c):
+        """round 7: every element that is neither a structure nor a skipped property (m:r, m:e, m:num, m:oMath, unknown
+        wrappers ...) is rendered as the results of the worker on its children, each once, in document order"""
+        ev = A0(c)
+        if not verifying(c) or not isinstance(ev, VExt) or not isinstance(c.result, VStr):
+            return z3.BoolVal(True)
+        tags = skip_tags(mod(c.ex.module.repo))
+        if tags is None:
+            return z3.BoolVal(False)
+        committed = path_tag(c)
+        if committed is not None and committed != "m" and (committed in STRUCT_TAGS or committed in tags):
+            return z3.BoolVal(True)
+        e = ev.t
+        other = z3.And([lname(e) != sval(k) for k in STRUCT_TAGS if k != "m"] + [lname(e) != sval(k) for k in tags] +
+                       [z3.Or(lname(e) != sval("m"), FINDNONE(e, sval(Q("mr"))))])
+        return z3.Implies(other, c.result.t == content_of_children(c, e))
+
     out.append(FnContract(
         target=PE,
         params=[(pname(f"omml_to_latex.<locals>.{PE_NAME}", 0, "elem"), p_opt(p_ext("Element")))],
@@ -1511,7 +1579,7 @@ def contracts(reg):
             ("no-lone-brace", pe_aux),
             ("None-is-empty", pe_none),
             ("property-tags-skipped", pe_skip),
-        ] + [(f"template.{t}", template(t)) for t in STRUCT_TAGS],
+        ] + [(f"template.{t}", template(t)) for t in STRUCT_TAGS] + [("template.default-children-in-order", pe_default)],
         loops={"*": LoopSpec(inv=conv_loop_inv)},
         note="recursive; verified against its own contract at every recursive call",
     ))
@@ -1529,6 +1597,15 @@ def contracts(reg):
             return z3.BoolVal(True)
         return c.result.t == sval("")
 
+    def om_content(c):
+        """round 7: the result is the results of the worker on the children of the root, each once, in document order,
+        followed by nothing or by the one `}` that closes a radical still open at the end"""
+        ev = A0(c)
+        if not verifying(c) or not isinstance(ev, VExt) or not isinstance(c.result, VStr):
+            return z3.BoolVal(True)
+        ch = content_of_children(c, ev.t)
+        return z3.Or(c.result.t == ch, c.result.t == z3.Concat(ch, sval("}")))
+
     out.append(FnContract(
         target=f"{OMML}::omml_to_latex",
         params=[(pname("omml_to_latex", 0, "omath_element"), p_opt(p_ext("Element")))],
@@ -1545,6 +1622,7 @@ def contracts(reg):
             ("balanced-for-brace-free-trees", lambda c: z3.Implies(nb_of(A0(c)),
                                                                   bal_of(H3(c.result.t)) == 0)),
             ("None-is-empty", om_none),
+            ("children-results-in-order-then-closer", om_content),
         ],
         loops={"*": LoopSpec(inv=conv_loop_inv)},
         note="for every tree: no exception; brace-free tree => balanced output",
